@@ -1,6 +1,6 @@
 //! C18: remote token deployments announce the registered token's true id and metadata.
 
-use axmc::aux::WeirdToken;
+use axmc::aux::{FussyToken, WeirdToken};
 use axmc::explore::*;
 use axmc::its::*;
 use axmc::refs::*;
@@ -34,6 +34,9 @@ enum Gas {
 
 #[derive(Clone, Debug, Serialize, Deserialize)]
 enum Act {
+    /// a remote deployment whose gas is stated as -1 of a token that does not look at signs (the gas
+    /// service holds some of it): refused, or the "payer" is paid out of the service's funds
+    NegativeGasInNaiveToken,
     /// the issuer of a registered custom token renames it (later announcements carry the new metadata)
     Rebrand,
     SetTrusted(usize),
@@ -57,6 +60,8 @@ struct Ctx {
     /// metadata of the three tokens U0 deployed with salts 0..3
     local_meta: Vec<(Vec<u8>, Vec<u8>, u32)>,
     canon: Vec<CanonTok>,
+    /// a token that ignores the sign of amounts; the gas service holds 5 of it
+    naive: Address,
     balance_watch: Vec<(Address, Address)>,
 }
 
@@ -151,7 +156,9 @@ impl Scenario for C18 {
                 balance_watch.push((t.clone(), h));
             }
         }
-        (Ctx { iw, local_meta, canon, balance_watch }, Model { advances: 0, trusted: [true, false, false, false], gas: [3, 1, 0], rebranded: false })
+        let naive = env.register(FussyToken, (iw.owner.clone(),));
+        assert!(w.call(&naive, "mint", &[iw.gas.to_val(), w.v(5i128)], Auth::Setup).ok);
+        (Ctx { iw, local_meta, canon, balance_watch, naive }, Model { advances: 0, trusted: [true, false, false, false], gas: [3, 1, 0], rebranded: false })
     }
 
     fn actions(&self, ctx: &Ctx, m: &Model) -> Vec<Act> {
@@ -165,6 +172,7 @@ impl Scenario for C18 {
         if !m.rebranded {
             v.push(Act::Rebrand);
         }
+        v.push(Act::NegativeGasInNaiveToken);
         for c in [0usize, 1, 3] {
             v.push(Act::SetTrusted(c));
             v.push(Act::RemoveTrusted(c));
@@ -216,6 +224,21 @@ impl Scenario for C18 {
                 w.set_seq(w.seq() + n);
                 w.set_time(w.now() + 5 * *n as u64);
                 m.advances += 1;
+            }
+            Act::NegativeGasInNaiveToken => {
+                out.kind = "remote-interchain-refused";
+                let cl = &iw.users[0];
+                let call = w.call(
+                    &iw.its,
+                    "deploy_remote_interchain_token",
+                    &[cl.to_val(), to_val(env, &sbytes(&SALTS[0])), to_val(env, &sstr(CHAINS[0])), to_val(env, &token_scval(&iw.sc(&ctx.naive), -1))],
+                    Auth::By(&[cl.clone()]),
+                );
+                out.accepted = call.ok;
+                out.expect(!call.ok, "remote-interchain.outcome", || "a remote deployment stating a gas payment of -1 was accepted".into());
+                if !call.ok {
+                    out.expect(h0 == w.state_hash(), "rejected-but-changed-state", || format!("{:?}", a));
+                }
             }
             Act::Rebrand => {
                 out.kind = "rebrand";
@@ -370,7 +393,7 @@ fn main() {
         let mut o = Opts::new(tier, if thorough { 11 } else { 9 });
         o.min_depth = 2;
         o.xcheck = tier == "thorough";
-        o.rule = "histories of trusted-chain changes (a mixed-case name, a lower-case name, the hub itself) followed by remote deployment requests: deploy_remote_interchain_token for caller U0 / U1 x 4 salts (3 registered by U0 with metadata incl. multi-byte name and decimals 0/7/255; one never used; U1 reusing U0's salts) and deploy_remote_canonical_token for a registered asset contract, an unregistered one and 9 canonical tokens with unusual metadata (256 decimals, empty name, empty symbol, non-UTF-8 name, 255 decimals, a name that is one blank, a symbol ending in a blank, a symbol ending in NUL, a name that is one NUL); a registered custom token renamed by its issuer between two requests; destination trusted / removed again / never trusted (the service's own chain name) / the hub; the gas service named as its own payer; gas -1, 0, 1, balance, balance+1; authorised by the payer / the other user / nobody. Announced payload, gas_paid and token_deployment_started are compared with the independent ABI encoding of the token's actual metadata; every other balance must stay put".into();
+        o.rule = "histories of trusted-chain changes (a mixed-case name, a lower-case name, the hub itself) followed by remote deployment requests: deploy_remote_interchain_token for caller U0 / U1 x 4 salts (3 registered by U0 with metadata incl. multi-byte name and decimals 0/7/255; one never used; U1 reusing U0's salts) and deploy_remote_canonical_token for a registered asset contract, an unregistered one and 9 canonical tokens with unusual metadata (256 decimals, empty name, empty symbol, non-UTF-8 name, 255 decimals, a name that is one blank, a symbol ending in a blank, a symbol ending in NUL, a name that is one NUL); a registered custom token renamed by its issuer between two requests; destination trusted / removed again / never trusted (the service's own chain name) / the hub; the gas service named as its own payer; gas -1, 0, 1, balance, balance+1, and -1 of a token that ignores signs; authorised by the payer / the other user / nobody. Announced payload, gas_paid and token_deployment_started are compared with the independent ABI encoding of the token's actual metadata; every other balance must stay put".into();
         (C18 { thorough }, o)
     });
 }
